@@ -20,6 +20,7 @@ CONSTANTS
   FixD6 = TRUE
   FixD7 = TRUE
   FixD16 = TRUE
+  FixD10a = TRUE
   Depth = 90
   Gates <- GatesAll
   Shift = 30
